@@ -310,3 +310,389 @@ func edgeFacts(lf edgeLeaf) []Fact {
 	}
 	return facts
 }
+
+// ---------------------------------------------------------------------------
+// affine forms over a few named symbols, evaluated per case of one selector atom
+
+type affForm map[string]int64 // symbol → coefficient; "" → constant term
+
+func (a affForm) eq(b affForm) bool {
+	for k, v := range a {
+		if v != b[k] {
+			return false
+		}
+	}
+	for k, v := range b {
+		if v != a[k] {
+			return false
+		}
+	}
+	return true
+}
+
+func (a affForm) String() string {
+	s := ""
+	for _, k := range []string{"offset", "lastMatch", "Len", ""} {
+		if v := a[k]; v != 0 {
+			if k == "" {
+				s += fmt.Sprintf("%+d", v)
+			} else {
+				s += fmt.Sprintf("%+d·%s", v, k)
+			}
+		}
+	}
+	for k, v := range a {
+		if v != 0 && k != "offset" && k != "lastMatch" && k != "Len" && k != "" {
+			s += fmt.Sprintf("%+d·%s", v, k)
+		}
+	}
+	if s == "" {
+		return "0"
+	}
+	return s
+}
+
+type affEval struct {
+	sym   func(ssa.Value) (string, bool) // opaque leaf → symbol
+	isSel func(ssa.Value) (neg bool, ok bool)
+	sel   bool // the case being evaluated: selector atom is true/false
+}
+
+func (e *affEval) eval(v ssa.Value, depth int) (affForm, bool) {
+	if depth > 14 {
+		return nil, false
+	}
+	if k, ok := constInt(v); ok {
+		return affForm{"": k}, true
+	}
+	if s, ok := e.sym(v); ok {
+		return affForm{s: 1}, true
+	}
+	switch x := v.(type) {
+	case *ssa.Convert:
+		if isIntType(x.Type()) && isIntType(x.X.Type()) {
+			return e.eval(x.X, depth+1)
+		}
+	case *ssa.ChangeType:
+		return e.eval(x.X, depth+1)
+	case *ssa.UnOp:
+		if x.Op == token.SUB {
+			f, ok := e.eval(x.X, depth+1)
+			if !ok {
+				return nil, false
+			}
+			out := affForm{}
+			for k, c := range f {
+				out[k] = -c
+			}
+			return out, true
+		}
+		if x.Op == token.MUL {
+			if u := unwrapLocal(x); u != ssa.Value(x) {
+				return e.eval(u, depth+1)
+			}
+		}
+	case *ssa.BinOp:
+		if x.Op == token.ADD || x.Op == token.SUB {
+			l, ok1 := e.eval(x.X, depth+1)
+			r, ok2 := e.eval(x.Y, depth+1)
+			if !ok1 || !ok2 {
+				return nil, false
+			}
+			out := affForm{}
+			for k, c := range l {
+				out[k] += c
+			}
+			for k, c := range r {
+				if x.Op == token.ADD {
+					out[k] += c
+				} else {
+					out[k] -= c
+				}
+			}
+			return out, true
+		}
+	case *ssa.Phi:
+		var pick ssa.Value
+		n := 0
+		for i, edge := range x.Edges {
+			if e.edgeContradicts(x.Block().Preds[i], x.Block()) {
+				continue
+			}
+			// several surviving edges with the same value are one choice
+			if pick != nil && edge == pick {
+				continue
+			}
+			pick = edge
+			n++
+		}
+		if n == 1 {
+			return e.eval(pick, depth+1)
+		}
+		if n > 1 {
+			// all surviving edges must evaluate to the same form
+			var first affForm
+			for i, edge := range x.Edges {
+				if e.edgeContradicts(x.Block().Preds[i], x.Block()) {
+					continue
+				}
+				f, ok := e.eval(edge, depth+1)
+				if !ok {
+					return nil, false
+				}
+				if first == nil {
+					first = f
+				} else if !first.eq(f) {
+					return nil, false
+				}
+			}
+			return first, first != nil
+		}
+	}
+	return nil, false
+}
+
+// edgeContradicts: the CFG edge pred→to is only taken when the selector atom
+// has the other truth value.
+func (e *affEval) edgeContradicts(pred, to *ssa.BasicBlock) bool {
+	facts := append([]Fact{}, FactsAtBlock(pred)...)
+	if ifi, ok := lastInstr(pred).(*ssa.If); ok && len(pred.Succs) == 2 && pred.Succs[0] != pred.Succs[1] {
+		for k, s := range pred.Succs {
+			if s == to {
+				facts = append(facts, normFact(Fact{Cond: ifi.Cond, Val: k == 0, If: ifi}))
+			}
+		}
+	}
+	for _, f := range facts {
+		if neg, ok := e.isSel(f.Cond); ok {
+			val := f.Val != neg
+			if val != e.sel {
+				return true
+			}
+		}
+	}
+	return false
+}
+
+// checkCoversEveryByte — C02/COVERS-EVERY-BYTE. In sender.matched(offset, i):
+// the literal run handed to sendToken is [lastMatch, offset); the bytes fed to
+// the whole-file hash are n = offset − lastMatch (+ Sums[i].Len for a block
+// reference) starting at lastMatch; and lastMatch advances to offset
+// (+ Sums[i].Len). Together: every byte of the file is sent (as literal or as
+// a reference) and hashed exactly once, in order.
+func checkCoversEveryByte(p *Prog, r *Report) {
+	rule := "C02/COVERS-EVERY-BYTE"
+	r.Rule(rule, "sender.matched partitions the file: for both cases (i < 0: literal flush; i ≥ 0: block reference) the literal run sent is sendToken(…, i, lastMatch, offset − lastMatch), the number of bytes hashed from lastMatch on is offset − lastMatch (+ Sums[i].Len for a block reference), and lastMatch becomes offset (+ Sums[i].Len): lastMatch' = lastMatch + bytes hashed, so nothing is skipped or hashed twice — checked as affine forms over {offset, lastMatch, Sums[i].Len}", 6)
+	m := p.Func(pkgSender, "Transfer", "matched")
+	lmF := p.Field(pkgSender, "Transfer", "lastMatch")
+	lenF := p.Field(modPath, "SumBuf", "Len")
+	if m == nil || lmF == nil || lenF == nil {
+		r.Unk(rule, "anchors", "-", "matched / Transfer.lastMatch / SumBuf.Len not found")
+		return
+	}
+	var offP, iP *ssa.Parameter
+	for _, pp := range m.Params {
+		switch pp.Name() {
+		case "offset":
+			offP = pp
+		case "i":
+			iP = pp
+		}
+	}
+	if offP == nil || iP == nil {
+		r.Unk(rule, "matched parameters", p.Pos(m.Pos()), "parameters offset / i not found: signature changed, re-read")
+		return
+	}
+	g := p.ModGraph()
+	unit := g.unitFuncs(m)
+	// stores to lastMatch in the unit
+	var stores []*ssa.Store
+	for _, u := range unit {
+		if u != m {
+			continue
+		}
+		for _, b := range u.Blocks {
+			for _, in := range b.Instrs {
+				if st, ok := in.(*ssa.Store); ok {
+					if _, f := fieldOfAddr(st.Addr); f == lmF {
+						stores = append(stores, st)
+					}
+				}
+			}
+		}
+	}
+	sym := func(v ssa.Value) (string, bool) {
+		if v == ssa.Value(offP) {
+			return "offset", true
+		}
+		if ld, ok := v.(*ssa.UnOp); ok && ld.Op == token.MUL {
+			if _, f := fieldOfAddr(ld.X); f == lmF {
+				// only loads that no store to lastMatch can precede
+				for _, st := range stores {
+					if mayFollow(st, ld) {
+						return "", false
+					}
+				}
+				return "lastMatch", true
+			}
+			if _, f := fieldOfAddr(ld.X); f == lenF {
+				return "Len", true
+			}
+		}
+		return "", false
+	}
+	isSel := func(v ssa.Value) (bool, bool) { // atom: i < 0
+		bo, ok := v.(*ssa.BinOp)
+		if !ok || stripConv(bo.X) != ssa.Value(iP) {
+			return false, false
+		}
+		k, isK := constInt(bo.Y)
+		if !isK {
+			return false, false
+		}
+		switch {
+		case bo.Op == token.LSS && k == 0:
+			return false, true
+		case bo.Op == token.GEQ && k == 0:
+			return true, true
+		}
+		return false, false
+	}
+	// anchors: sendToken call, the hash loop bound, the stores
+	var tok ssa.CallInstruction
+	allCalls(m, func(c ssa.CallInstruction) {
+		if sc := c.Common().StaticCallee(); sc != nil && (sc.Name() == "sendToken" || sc.Name() == "simpleSendToken") {
+			tok = c
+		}
+	})
+	// hash loop: the ptr call whose result is written to the hash; its offset = base + j, bound from the loop condition j < n
+	var hashPtr *ssa.Call
+	var bound ssa.Value
+	for _, u := range unit {
+		allCalls(u, func(c ssa.CallInstruction) {
+			call, ok := c.(*ssa.Call)
+			if !ok || calleeName(c) != "(*"+pkgSender+".mapStruct).ptr" {
+				return
+			}
+			ls := loopsContaining(naturalLoops(u), c.Block())
+			if len(ls) == 0 {
+				return
+			}
+			// the loop writes to a hash (invoke Write) with the chunk
+			wr := false
+			allCalls(u, func(w ssa.CallInstruction) {
+				if w.Common().IsInvoke() && w.Common().Method.Name() == "Write" && ls[0].body[w.Block()] && w.Common().Value.Type().String() == "hash.Hash" {
+					if ex, i := extractOf(w.Common().Args[0]); ex == call && i == 0 {
+						wr = true
+					}
+				}
+			})
+			if !wr {
+				return
+			}
+			hashPtr = call
+			for b := range ls[0].body {
+				if ifi, ok := lastInstr(b).(*ssa.If); ok {
+					if bo, ok := ifi.Cond.(*ssa.BinOp); ok && bo.Op == token.LSS {
+						if _, isPhi := bo.X.(*ssa.Phi); isPhi {
+							bound = bo.Y
+						}
+					}
+				}
+			}
+		})
+	}
+	for _, c := range []struct {
+		sel  bool
+		name string
+		len  int64
+	}{{true, "literal flush (i < 0)", 0}, {false, "block reference (i ≥ 0)", 1}} {
+		ev := &affEval{sym: sym, isSel: isSel, sel: c.sel}
+		wantN0 := affForm{"offset": 1, "lastMatch": -1}
+		wantN := affForm{"offset": 1, "lastMatch": -1, "Len": c.len}
+		wantLM := affForm{"offset": 1, "Len": c.len}
+		// (1) sendToken(ms, i, lastMatch, offset − lastMatch)
+		if tok == nil {
+			r.Unk(rule, c.name+": literal run", p.Pos(m.Pos()), "no sendToken call in matched")
+		} else {
+			a := tok.Common().Args
+			okTok := false
+			why := "cannot evaluate the arguments"
+			if len(a) >= 4 {
+				base, ok1 := ev.eval(a[len(a)-2], 0)
+				n0, ok2 := ev.eval(a[len(a)-1], 0)
+				if ok1 && ok2 {
+					okTok = base.eq(affForm{"lastMatch": 1}) && n0.eq(wantN0)
+					why = "literal run is [" + base.String() + ", +" + n0.String() + "), expected [lastMatch, +offset−lastMatch)"
+				}
+			}
+			r.Cond(okTok, rule, c.name+": literal run", p.Pos(instrPos(tok)), why)
+		}
+		// (2) bytes hashed
+		if hashPtr == nil || bound == nil {
+			r.Unk(rule, c.name+": bytes hashed", p.Pos(m.Pos()), "no chunked ptr→hash.Write loop found in the matched unit")
+		} else {
+			okH := false
+			why := "cannot evaluate the loop bound / start"
+			// bound and base may be parameters of a split-out helper: map to the caller's arguments
+			bv, sv := bound, hashPtr.Common().Args[1]
+			if hashPtr.Parent() != m {
+				if roots := g.paramRoots(bv, 0); len(roots) == 1 {
+					bv = roots[0]
+				}
+			}
+			n, ok1 := ev.eval(bv, 0)
+			// start: ptr(base + j, …): strip the induction variable (a phi that starts at 0)
+			startOK := false
+			if bo, ok := stripConv(sv).(*ssa.BinOp); ok && bo.Op == token.ADD {
+				for _, pr := range [][2]ssa.Value{{bo.X, bo.Y}, {bo.Y, bo.X}} {
+					if _, isPhi := stripConv(pr[1]).(*ssa.Phi); isPhi {
+						bs := pr[0]
+						if hashPtr.Parent() != m {
+							if roots := g.paramRoots(bs, 0); len(roots) == 1 {
+								bs = roots[0]
+							}
+						}
+						if b, ok := ev.eval(bs, 0); ok && b.eq(affForm{"lastMatch": 1}) {
+							startOK = true
+						}
+					}
+				}
+			}
+			if ok1 {
+				okH = n.eq(wantN) && startOK
+				why = "hashes " + n.String() + " bytes (start at lastMatch: " + fmt.Sprint(startOK) + "), expected " + wantN.String() + " from lastMatch"
+			}
+			r.Cond(okH, rule, c.name+": bytes hashed", p.Pos(instrPos(hashPtr)), why)
+		}
+		// (3) lastMatch' — the store that this case reaches
+		nSt := 0
+		okLM := true
+		why := ""
+		for _, st := range stores {
+			contradicted := false
+			for _, f := range FactsAtBlock(st.Block()) {
+				if neg, ok := isSel(f.Cond); ok && (f.Val != neg) != c.sel {
+					contradicted = true
+				}
+			}
+			if contradicted {
+				continue
+			}
+			nSt++
+			v, ok := ev.eval(st.Val, 0)
+			if !ok || !v.eq(wantLM) {
+				okLM = false
+				if ok {
+					why = "lastMatch becomes " + v.String() + ", expected " + wantLM.String()
+				} else {
+					why = "cannot evaluate the value stored to lastMatch"
+				}
+			}
+		}
+		if nSt == 0 {
+			okLM, why = false, "lastMatch is not advanced in this case"
+		}
+		r.Cond(okLM, rule, c.name+": lastMatch advances by the bytes hashed", p.Pos(m.Pos()), why)
+	}
+}
